@@ -123,10 +123,13 @@ var c03ExprRoutes = []c03Wrap{
 	{"paren-then-filter?", "", `{{ (1 + 2)|%s }}`},
 }
 
-var c03FileRoutes = []string{"none", "static-include", "lazy-include", "extends-parent-block", "extends-parent-top", "extends-child-block", "import-macro", "ssi-parsed", "include-of-include"}
+var c03FileRoutes = []string{"none", "static-include", "lazy-include", "extends-parent-block", "extends-parent-top", "extends-child-block", "import-macro", "ssi-parsed", "include-of-include",
+	// if_exists forgives a missing file, not a file that uses something banned
+	"static-include-if_exists", "lazy-include-if_exists", "lazy-include-of-include-if_exists"}
 
 var c03FileRouteNeeds = map[string]string{"static-include": "include", "lazy-include": "include", "extends-parent-block": "extends", "extends-parent-top": "extends",
-	"extends-child-block": "extends", "import-macro": "import", "ssi-parsed": "ssi", "include-of-include": "include"}
+	"extends-child-block": "extends", "import-macro": "import", "ssi-parsed": "ssi", "include-of-include": "include",
+	"static-include-if_exists": "include", "lazy-include-if_exists": "include", "lazy-include-of-include-if_exists": "include"}
 
 func c03Lib() map[string]string {
 	return map[string]string{
@@ -153,6 +156,18 @@ func c03Files(route, s string) (map[string]string, bool) {
 	case "lazy-include":
 		f["/d/u.tpl"] = s
 		f["/root.tpl"] = `A{% include lazyname %}Z`
+		lazy = true
+	case "static-include-if_exists":
+		f["/d/u.tpl"] = s
+		f["/root.tpl"] = `A{% include "/d/u.tpl" if_exists %}Z`
+	case "lazy-include-if_exists":
+		f["/d/u.tpl"] = s
+		f["/root.tpl"] = `A{% include lazyname if_exists %}Z`
+		lazy = true
+	case "lazy-include-of-include-if_exists":
+		f["/d/inner.tpl"] = s
+		f["/d/u.tpl"] = `{% include "inner.tpl" if_exists %}`
+		f["/root.tpl"] = `A{% include lazyname if_exists %}Z`
 		lazy = true
 	case "extends-parent-block":
 		f["/base.tpl"] = `B{% block pb %}` + s + `{% endblock %}E`
